@@ -3,6 +3,7 @@
 package main
 
 import (
+	"github.com/aergoio/aergo/v2/contract/system"
 	"bytes"
 	"encoding/json"
 	"fmt"
@@ -246,8 +247,11 @@ func (c *ctxT) checkCase(word []int) (string, string) {
 		vs = append(vs, variant{"block carrying a tx with a foreign signature", good})
 	}
 	p.Node.ResetGlobals()
-	before := p.Node.StoreDigest()
-	beforeParts := p.Node.StoreDigestParts()
+	// the digest covers both stores and the in-memory pointers; the process-wide parameter cache of
+	// contract/system (current values and values pending for the next block) is compared with it: a
+	// refused block must not leave a parameter it voted in behind
+	before := p.Node.StoreDigest() + "|params " + system.VerifC15ParamsState()
+	beforeParts := append(p.Node.StoreDigestParts(), system.VerifC15ParamsState())
 	beforeDump, _ := p.Node.DumpState(p.Node.CS.SDB().GetRoot())
 	for _, v := range vs {
 		err := p.Node.Deliver(v.blk)
@@ -256,7 +260,7 @@ func (c *ctxT) checkCase(word []int) (string, string) {
 			_ = p.Reset()
 			return desc, fmt.Sprintf("invalid block (%s) was accepted and became the best block", v.name)
 		}
-		after := p.Node.StoreDigest()
+		after := p.Node.StoreDigest() + "|params " + system.VerifC15ParamsState()
 		if after != before {
 			ad, _ := p.Node.DumpState(p.Node.CS.SDB().GetRoot())
 			diff := []string{}
@@ -264,7 +268,7 @@ func (c *ctxT) checkCase(word []int) (string, string) {
 				diff = ad.Diff(beforeDump)
 			}
 			defer p.Reset()
-			return desc, fmt.Sprintf("invalid block (%s) was refused (%v) but the node changed: [chain store, state store, pointers] %v -> %v (accounts %v)", v.name, err, beforeParts, p.Node.StoreDigestParts(), diff)
+			return desc, fmt.Sprintf("invalid block (%s) was refused (%v) but the node changed: [chain store, state store, pointers, system parameters incl. pending] %v -> %v (accounts %v)", v.name, err, beforeParts, append(p.Node.StoreDigestParts(), system.VerifC15ParamsState()), diff)
 		}
 	}
 	return desc, ""
@@ -360,7 +364,7 @@ func main() {
 	xplor.Main(xplor.Check{
 		ID:    "C03",
 		Level: "exploration",
-		Rule:  "every block of <= 2 transactions over the 41-letter alphabet x pre-state {genesis, warm} x 5 (thorough 40) network configurations. Per tx, by prefix differential on the real producer path (block with txs[:i] vs txs[:i+1], full state dumps): rejected => state, state root and receipts root identical to the block without it; ERROR receipt => only payer balance (- recorded fee), sender nonce (= tx nonce) and the coinbase change, no storage/code change, no events from v3; applied => nonce consumed, the sum of all balances unchanged by it (minus the fee where fees are burnt), and for plain transfers exact amounts and no third account. Per block: invalid variants (wrong state/receipts/tx root, rejected txs re-inserted, body lacking a committed tx, duplicated tx, foreign signature) delivered to the node must be refused and leave a digest of both stores, best block, state root, DPoS status and orphan pool unchanged. distinct_nontrivial = distinct (net, pre-state, word, outcome vector)",
+		Rule:  "every block of <= 2 transactions over the 42-letter alphabet x pre-state {genesis, warm} x 5 (thorough 40) network configurations. Per tx, by prefix differential on the real producer path (block with txs[:i] vs txs[:i+1], full state dumps): rejected => state, state root and receipts root identical to the block without it; ERROR receipt => only payer balance (- recorded fee), sender nonce (= tx nonce) and the coinbase change, no storage/code change, no events from v3; applied => nonce consumed, the sum of all balances unchanged by it (minus the fee where fees are burnt), and for plain transfers exact amounts and no third account. Per block: invalid variants (wrong state/receipts/tx root, rejected txs re-inserted, body lacking a committed tx, duplicated tx, foreign signature) delivered to the node must be refused and leave a digest of both stores, best block, state root, DPoS status and orphan pool unchanged. distinct_nontrivial = distinct (net, pre-state, word, outcome vector)",
 		Assumptions: []string{
 			"contract execution is the stub VM (storage writes, runtime failure, system failure, gas) driven through the real contract.Execute / executeTx / BlockState snapshot+rollback",
 			"the bad-block cache is not part of 'state, indexes and best block'",
